@@ -97,23 +97,49 @@ def part_lists(sh, res):
     res.sample({'lists_from': sh['src'], 'range': [sh['lo'], sh['hi']]})
 
 
+def part_tuples(sh, res):
+    """tables whose rows are tuples (accepted by read-only queries): the caller's table must keep its row objects"""
+    eng = tree.engine()
+    A = [('k', '1'), ('m', '2'), ('k', 'x')]
+    Bt = [('k', 'p'), ('m', 'q')]
+    for q in ('select a1, a2', 'select a2 where a1 == "k"', 'select a1 order by a2 desc', 'select a1, count(*) group by a1', 'select distinct a1', 'select int(a2)', 'select a1 where a1 = 1',
+              'select a1, b2 join b on a1 == b1', 'select top 1 a2'):
+        rows = list(A)
+        brows = list(Bt)
+        ids = [id(r) for r in rows] + [id(r) for r in brows]
+        try:
+            eng.query_table(q, rows, [], [], brows if ' join ' in q else None)
+        except Exception:
+            pass
+        res.evaluations += 1
+        res.traces += 1
+        res.states += 1
+        res.transitions += 1
+        res.feat('tuple_row_cases')
+        if rows != A or brows != Bt or [id(r) for r in rows] + [id(r) for r in brows] != ids or not all(isinstance(r, tuple) for r in rows + brows):
+            res.violation('source-list-modified', {'kind': 'tuples', 'query': q}, {'A': A, 'B': Bt}, {'A': rows, 'B': brows})
+        else:
+            res.nontrivial += 1
+
+
 def part_pandas(sh, res):
     import pandas as pd
     rb = tree.load()
     A = pd.DataFrame([['k', '1', 'x;y'], ['m', '2', 'z'], ['k', 'bad', '']], columns=['name', 'val', 'tags'])
     An = pd.DataFrame([['k', 1, 2.5], ['m', 2, None]])
+    Ai = pd.DataFrame([['k', '1', 'x'], ['m', '2', 'y']], columns=[2019, 2021, 7])       # non-string column labels
     B = pd.DataFrame([['k', 'p'], ['k', 'q'], ['n', 'r']], columns=['jk', 'jv'])
     queries = ['select *', 'select a1, a.val where a2 != "2"', 'update set a2 = a1 + "!"', 'update set a.name = "Z", a3 = NR', 'select distinct count a1', 'select a1, count(*) group by a1',
                'select * order by a2 desc', 'select a1, unnest(a3.split(";"))', 'select int(a2)', 'select a1 where a1 = "x"', 'select a.nosuch', 'select * except a1', 'select top 1 *',
                'select a1, b2 join b on a1 == b1', 'select * left join b on a1 == b1', 'update set a2 = b2 join b on a1 == b1', 'select a1 strict left join b on a1 == b1', 'update set a2 = b.jv left join b on a.name == b.jk']
-    for frame, fname in ((A, 'named'), (An, 'unnamed')):
+    for frame, fname in ((A, 'named'), (An, 'unnamed'), (Ai, 'intlabels')):
         for q in queries:
             for join in (None, B):
                 if ' join ' in q and join is None:
                     continue
-                if fname == 'unnamed' and ('a.' in q or 'b.' in q):
+                if fname in ('unnamed', 'intlabels') and ('a.' in q or 'b.' in q):
                     continue
-                jf = join if fname == 'named' else (pd.DataFrame(join.values.tolist()) if join is not None else None)
+                jf = join if fname == 'named' else (pd.DataFrame(join.values.tolist(), columns=([10, 20] if fname == 'intlabels' else None)) if join is not None else None)
                 f0, j0 = frame.copy(deep=True), (jf.copy(deep=True) if jf is not None else None)
                 err = None
                 try:
@@ -130,9 +156,9 @@ def part_pandas(sh, res):
                 res.feat('pandas_cases')
                 if err:
                     res.feat('pandas_failing')
-                same = frame.equals(f0) and list(frame.dtypes) == list(f0.dtypes) and frame.index.equals(f0.index) and list(frame.columns) == list(f0.columns)
+                same = frame.equals(f0) and list(frame.dtypes) == list(f0.dtypes) and frame.index.equals(f0.index) and list(frame.columns) == list(f0.columns) and [type(c) for c in frame.columns] == [type(c) for c in f0.columns]
                 if jf is not None:
-                    same = same and jf.equals(j0) and list(jf.dtypes) == list(j0.dtypes) and jf.index.equals(j0.index)
+                    same = same and jf.equals(j0) and list(jf.dtypes) == list(j0.dtypes) and jf.index.equals(j0.index) and [type(c) for c in jf.columns] == [type(c) for c in j0.columns] and list(jf.columns) == list(j0.columns)
                 if not same:
                     res.violation('dataframe-modified', {'kind': 'pandas', 'query': q, 'frame': fname}, None, None)
                 else:
@@ -270,7 +296,7 @@ def part_csv(sh, res):
 
 def run_shard(sh):
     res = core.Result()
-    {'lists': part_lists, 'pandas': part_pandas, 'sqlite': part_sqlite, 'csv': part_csv}[sh['part']](sh, res)
+    {'lists': part_lists, 'pandas': part_pandas, 'sqlite': part_sqlite, 'csv': part_csv, 'tuples': part_tuples}[sh['part']](sh, res)
     return res
 
 
@@ -289,7 +315,7 @@ def main(tier, seed):
     nid = sum(17 ** k for k in range(1, maxlen + 1))
     for lo, hi in core.chunks(nid, 64 if T else 24):
         shards.append({'part': 'sqlite', 'minlen': 1, 'maxlen': maxlen, 'lo': lo, 'hi': hi})
-    shards += [{'part': 'pandas'}, {'part': 'csv'}]
+    shards += [{'part': 'pandas'}, {'part': 'csv'}, {'part': 'tuples'}]
     res = core.run_shards('vf.checks.c06', shards)
     return core.finish(PID, tier, seed, res, t0,
         rule='lists: the C01 / C04 / C05 / C14 (query, tables) spaces (every %s table) incl. failing queries, through Python and rbql-js, with snapshot, aliasing and mutate-the-output probes; sqlite: all identifiers up to length %d over 17 hostile symbols '
